@@ -33,6 +33,15 @@ CHECKS = {
             "state of the last TOC rename before j; up_to_date() must equal (generation is latest).",
             "Preemption between two non-I/O steps of a reader is not explored (readers share only the storage with writers). Real threads/processes are not used: the schedule is owned by the harness, so every run is a function of the seed.",
             "DESIGN.md section 2 C03"),
+    "C04": ("exploration",
+            "property-based testing (Hypothesis) of generated writer scripts under a harness-owned schedule: the storage wrapper stops the main writer before every storage operation and a rival writer (same process via a second descriptor, forked child process, or AsyncWriter retry thread) runs there; lock-monitor, admission, lost-update and generation oracles",
+            "rivals: a main writer (plain, with-block, BufferedWriter; commit / cancel / exception in the with-block) over a generated base index (directory or RAM) is stopped at every storage "
+            "boundary; at each a fresh rival with unique keys (timeout 0 or 30 ms; plain / with / buffered / async front-end; every n-th in a forked process; nested third writer at generated "
+            "boundaries; a bystander process forked while the writer is open) tries to write. The lock monitor must never see two holders, rivals must be refused exactly while the lock is "
+            "held (never before their timeout) and admitted otherwise, the lock must be free after all outcomes, the final documents must equal the base plus every successful commit, and "
+            "latest_generation() must have advanced by one per successful commit.",
+            "Free-running races of 3-6 unsynchronised processes are not run (they would be judged by the same oracles but are not a function of the seed); the AsyncWriter retry thread is real, its outcome does not depend on timing as long as the lock works.",
+            "DESIGN.md section 2 C04"),
     "C05": ("exploration",
             "property-based testing (Hypothesis): differential search(limit=k) vs prefix of search(limit=None) on generated multi-block corpora, with engagement of block skipping measured",
             "Generated corpora with long posting lists (block limit 1-8, 1-4 segments, deletions), generated scored query trees and weighting models; for k in {1,2,3,5,10,|hits|-1} "
